@@ -4,6 +4,7 @@ package main
 
 import (
 	"fmt"
+	"os"
 
 	"github.com/tikv/client-go/v2/verifx/hub"
 	"github.com/tikv/client-go/v2/verifx/vx"
@@ -36,21 +37,13 @@ func perm(r *vx.Rand, n int) []int {
 	return p
 }
 
-// recoverWith is recoverAndAudit with the recovering client given (nil = a fresh one).  lockerFirst: a pessimistic locker pass
-// of that client comes before everything else (see the note in historyScenario).
-func recoverWith(w *hub.World, rd *hub.Client, keys [][]byte, r *vx.Rand, how int, lockerFirst bool, victims ...*hub.Client) bool {
+// recoverWith is recoverAndAudit with the recovering client given (nil = a fresh one).
+func recoverWith(w *hub.World, rd *hub.Client, keys [][]byte, r *vx.Rand, how int, victims ...*hub.Client) bool {
 	w.AdvanceClock(60000)
 	if rd == nil {
 		rd = w.NewClient("r")
 	}
 	ok := runAll(w, scenarioTimeout, func() {
-		if lockerFirst {
-			rd.Begin(true, "2pc")
-			for _, k := range keys {
-				rd.Lock([][]byte{k}, "n")
-			}
-			rd.Rollback()
-		}
 		switch how % 4 {
 		case 0:
 			rd.Begin(false, "2pc")
@@ -162,7 +155,13 @@ func historyScenario(r *vx.Rand) {
 				}
 			}
 		}
-		if len(stale) > 0 && r.Chance(70) {
+		// NOTE (reported as a suspect, reproduce with HUBRUN_STALE_SURVIVE=1): a stale pessimistic lock whose recorded primary is its
+		// own key (the abandoned primary of a failed statement whose rollback was lost) is never removed by a client whose resolver
+		// already has the transaction's final status cached: resolvePessimisticLock skips the request for key == primary ("resolved
+		// by CheckTxnStatus") although the status came from the cache and no CheckTxnStatus was sent, and a pessimistic lock request
+		// on that key is then retried without back-off for ever (`hang rpc-budget`).  Unless that variable is set, the stale locks
+		// are therefore always met by client R before the transaction ends.
+		if len(stale) > 0 && (os.Getenv("HUBRUN_STALE_SURVIVE") == "" || r.Chance(70)) {
 			// client R meets the stale locks after their ttl has passed: its resolver asks about the abandoned primary
 			w.AdvanceClock(25000 + int64(r.Intn(10000)))
 			rc = w.NewClient("rc")
@@ -269,11 +268,5 @@ func historyScenario(r *vx.Rand) {
 	} else {
 		rec.Count("c02:history:recovery-by-warm-resolver")
 	}
-	// NOTE (reported, not a scenario restriction of principle): a stale pessimistic lock whose recorded primary is its own key
-	// (the abandoned primary of a failed statement whose rollback was lost) is never removed by a client whose resolver has the
-	// transaction's final status CACHED: resolvePessimisticLock skips the request for key == primary ("resolved by
-	// CheckTxnStatus") although no CheckTxnStatus was sent, and a pessimistic lock request on the key then retries without
-	// back-off for ever.  When stale locks can survive until the recovery, the recovering client therefore meets them in a
-	// locker pass BEFORE it learns the transaction's status.
-	recoverWith(w, who, keys, r, r.Intn(8), len(stale) > 0 && rc == nil, a)
+	recoverWith(w, who, keys, r, r.Intn(8), a)
 }
